@@ -6,10 +6,33 @@ import vlib, proglib
 import importlib
 
 
-def writer_program(rng, tier):
+def writer_program(rng, tier, no_fsr=None):
     C17 = importlib.import_module("C17")
+    if no_fsr or (no_fsr is None and rng.random() < 0.15):
+        return no_fsr_program(rng, tier)
     ops, sigs, has_omit = C17.gen_writer(rng, tier, deep=True)
     return ops, sigs, has_omit
+
+
+def no_fsr_program(rng, tier):
+    """a file WITHOUT any FSR signal: sources, annotations on the built-in signal 0 (enough to fill index levels of its
+    annotation track), user data of several sizes, possibly a VSR signal with annotations - the repair paths that do not go
+    through an FSR track"""
+    ops = ["wopen"]
+    for s in range(rng.randrange(0, 3)):
+        ops.append("src %d g%d.%d e - g3.2 e" % (s + 1, rng.choice([1, 8, 300]), rng.randrange(1, 999)))
+    if rng.random() < 0.5:
+        # redefinition attempt of signal 0 (rejected) / a VSR signal: neither has an FSR track
+        ops.append("sig 0 0 0 8196 1000 0 0 0 0 0 0 g4.1 e")
+    na = rng.choice([3, 12, 40, 120])
+    ts = 0
+    body = []
+    for a in range(na):
+        ts += rng.choice([0, 1, 7])
+        body.append("anno 0 %d 3f800000 %d 0 %d g%d.%d" % (ts, rng.choice([0, 1, 2]), rng.choice([1, 2, 3]), rng.choice([0, 5, 13, 200]), rng.randrange(1, 10**6)))
+    for u in range(rng.choice([0, 2, 9])):
+        body.insert(rng.randrange(0, len(body) + 1), "ud %d %d g%d.%d" % (rng.randrange(0, 4096), rng.choice([1, 2, 3]), rng.choice([1, 3, 100, 1000]), rng.randrange(1, 10**6)))
+    return ops + body, {}, False
 
 
 def with_marks(ops):
